@@ -325,6 +325,28 @@ func stressWorker(g int, cycles int, seed int64, lg *lockedLog, shared *strmap.S
 	}
 }
 
+// touchErr renders an error every way a logger might (Error, String, %v, %+v, TypeId, Unwrap chain): decoders hand out
+// shared sentinel error VALUES, so nothing a reader of an error calls may write to it
+func touchErr(e error) bool {
+	if e == nil || e.Error() == "" {
+		return false
+	}
+	if st, ok := e.(fmt.Stringer); ok {
+		_ = st.String()
+	}
+	_ = fmt.Sprintf("%v|%+v|%s", e, e, e)
+	if t, ok := e.(interface{ TypeId() int32 }); ok {
+		_ = t.TypeId()
+	}
+	if m, ok := e.(interface{ Msg() string }); ok {
+		_ = m.Msg()
+	}
+	for u := errors.Unwrap(e); u != nil; u = errors.Unwrap(u) {
+		_ = u.Error()
+	}
+	return true
+}
+
 // stressRestOfAPI: reflective unknown-field access on struct types of the goroutine's own (types the library meets for the
 // first time while other goroutines are calling it, and types it has met), unknown-field writing, the apache
 // transports, bytes-backed bufiox readers / writers, ApplicationException / BaseResp codecs, skipping of nested
@@ -498,39 +520,39 @@ func stressRestOfAPI(g, c int, rng *rand.Rand) bool {
 	bad[14+2+ntr] = 0x10
 	bad[14+2+ntr+1], bad[14+2+ntr+2] = 0x7f, 0xff // an int section announcing 32767 entries
 	for _, in := range [][]byte{hdr, bad} {
-		if _, e := ttheader.DecodeFromBytes(context.Background(), in); e == nil || e.Error() == "" {
+		if _, e := ttheader.DecodeFromBytes(context.Background(), in); !touchErr(e) {
 			ok = false
 		}
 		srd := bufiox.NewDefaultReader(&dataSource{data: in, chunks: []int{3}})
-		if _, e := ttheader.Decode(context.Background(), srd); e == nil || e.Error() == "" {
+		if _, e := ttheader.Decode(context.Background(), srd); !touchErr(e) {
 			ok = false
 		}
 		srd.Release(nil)
 	}
 	trunc := nb[:len(nb)-1-(g+c)%5]
-	if _, e := thrift.Binary.Skip(trunc, thrift.MAP); e == nil || e.Error() == "" {
+	if _, e := thrift.Binary.Skip(trunc, thrift.MAP); !touchErr(e) {
 		ok = false
 	}
-	if _, e := base.NewBaseResp().FastRead(rb[:len(rb)-2]); e == nil || e.Error() == "" {
+	if _, e := base.NewBaseResp().FastRead(rb[:len(rb)-2]); !touchErr(e) {
 		ok = false
 	}
-	if _, e := thrift.NewApplicationException(0, "").FastRead(eb[:len(eb)-3]); e == nil || e.Error() == "" {
+	if _, e := thrift.NewApplicationException(0, "").FastRead(eb[:len(eb)-3]); !touchErr(e) {
 		ok = false
 	}
-	if _, e := uf.ConvertUnknownFields(trunc[:len(trunc)/2]); e == nil || e.Error() == "" {
+	if _, e := uf.ConvertUnknownFields(trunc[:len(trunc)/2]); !touchErr(e) {
 		ok = false
 	}
 	tbr := thrift.NewBufferReader(bufiox.NewDefaultReader(&dataSource{data: trunc, chunks: []int{7}}))
-	if e := tbr.Skip(thrift.MAP); e == nil || e.Error() == "" || !errors.Is(e, io.EOF) {
+	if e := tbr.Skip(thrift.MAP); !touchErr(e) || !errors.Is(e, io.EOF) {
 		ok = false
 	}
 	tbr.Recycle()
 	tsd := thrift.NewReaderSkipDecoder(&dataSource{data: trunc, chunks: []int{5}})
-	if _, e := tsd.Next(thrift.MAP); e == nil || e.Error() == "" {
+	if _, e := tsd.Next(thrift.MAP); !touchErr(e) {
 		ok = false
 	}
 	tsd.Release()
-	if _, _, e := thrift.UnmarshalFastMsg(append(thrift.Binary.AppendMessageBegin(nil, fmt.Sprint("m", g), thrift.REPLY, int32(c)), rb[:len(rb)-2]...), base.NewBaseResp()); e == nil || e.Error() == "" {
+	if _, _, e := thrift.UnmarshalFastMsg(append(thrift.Binary.AppendMessageBegin(nil, fmt.Sprint("m", g), thrift.REPLY, int32(c)), rb[:len(rb)-2]...), base.NewBaseResp()); !touchErr(e) {
 		ok = false
 	}
 	return ok
